@@ -190,9 +190,17 @@ def set_item(case, kind, iv, rng=None):
         if isinstance(iv, list) and iv and isinstance(iv[0], list):
             iv = iv[0]  # weights take a single interval
             case["iv"] = iv
-        case["weights"] = [{"datasets": [d["label"] for d in case["datasets"]], "value": 0.371,
-                            "global_interval": iv if kind == "weight_global" else None,
-                            "model_interval": iv if kind == "weight_model" else None}]
+        main = {"datasets": [d["label"] for d in case["datasets"]], "value": 0.371,
+                "global_interval": iv if kind == "weight_global" else None,
+                "model_interval": iv if kind == "weight_model" else None}
+        case["weights"] = [main]
+        if rng is not None and rng.integers(2):
+            # a neutral weight item (value 1) on a small rectangle listed FIRST: the probe item, which leaves one interval
+            # out, must still act on that whole axis
+            d0 = case["datasets"][0]
+            neutral = {"datasets": list(main["datasets"]), "value": 1.0, "global_interval": [d0["g"][0], d0["g"][min(1, len(d0["g"]) - 1)]],
+                       "model_interval": [d0["t"][1], d0["t"][3]]}
+            case["weights"] = [neutral, main]
 
 
 # ---------------------------------------------------------------- observation
@@ -246,7 +254,7 @@ def observe(case, kind, prepare=None):
                 sets[ds["label"]] = set()
                 continue
             W = rd["weight"].transpose("time", "spectral").values
-            val = case["weights"][0]["value"]
+            val = case["weights"][-1]["value"]
             hit = W == val
             if not np.isin(W, [1.0, val]).all():
                 raise AssertionError(f"weight values other than 1 and {val}: {np.unique(W)}")
